@@ -1412,46 +1412,38 @@ impl LpgStore {
         grafeo_common::verif::yield_point("lpg.al.check");
         let epoch = self.current_epoch();
 
-        // Check if node exists
-        let nodes = self.nodes.read();
-        if let Some(chain) = nodes.get(&node_id) {
-            if chain.visible_at(epoch).map_or(true, |r| r.is_deleted()) {
-                return false;
-            }
-        } else {
+        // The liveness check, node_labels, the label index and the label count change under
+        // the node map's lock, taken first as in delete_node (nodes, label index, node_labels):
+        // a concurrent delete_node or remove_label sees all of it or none of it.
+        let mut nodes = self.nodes.write();
+        let Some(chain) = nodes.get_mut(&node_id) else {
+            return false;
+        };
+        if chain.visible_at(epoch).map_or(true, |r| r.is_deleted()) {
             return false;
         }
-        drop(nodes);
 
         // Get or create label ID
         let label_id = self.get_or_create_label_id(label);
 
-        // Add to node_labels map
+        let mut index = self.label_index.write();
         let mut node_labels = self.node_labels.write();
-        let label_set = node_labels.entry(node_id).or_default();
 
-        if label_set.contains(&label_id) {
+        // Add to node_labels map
+        let label_set = node_labels.entry(node_id).or_default();
+        if !label_set.insert(label_id) {
             return false; // Already has this label
         }
-
-        label_set.insert(label_id);
-        drop(node_labels);
+        let count = label_set.len();
 
         // Add to label_index
-        let mut index = self.label_index.write();
         if (label_id as usize) >= index.len() {
             index.resize(label_id as usize + 1, FxHashMap::default());
         }
         index[label_id as usize].insert(node_id, ());
-        // Release the index before taking `nodes`: delete_node takes `nodes` first and the
-        // label index second, so holding the index here could deadlock with it.
-        drop(index);
 
         // Update label count in node record
-        if let Some(chain) = self.nodes.write().get_mut(&node_id)
-            && let Some(record) = chain.latest_mut()
-        {
-            let count = self.node_labels.read().get(&node_id).map_or(0, |s| s.len());
+        if let Some(record) = chain.latest_mut() {
             record.set_label_count(count as u16);
         }
 
@@ -1520,16 +1512,14 @@ impl LpgStore {
         grafeo_common::verif::yield_point("lpg.rl.check");
         let epoch = self.current_epoch();
 
-        // Check if node exists
-        let nodes = self.nodes.read();
-        if let Some(chain) = nodes.get(&node_id) {
-            if chain.visible_at(epoch).map_or(true, |r| r.is_deleted()) {
-                return false;
-            }
-        } else {
+        // One critical section under the node map's lock (see add_label)
+        let mut nodes = self.nodes.write();
+        let Some(chain) = nodes.get_mut(&node_id) else {
+            return false;
+        };
+        if chain.visible_at(epoch).map_or(true, |r| r.is_deleted()) {
             return false;
         }
-        drop(nodes);
 
         // Get label ID
         let label_id = {
@@ -1540,30 +1530,26 @@ impl LpgStore {
             }
         };
 
-        // Remove from node_labels map
+        let mut index = self.label_index.write();
         let mut node_labels = self.node_labels.write();
-        if let Some(label_set) = node_labels.get_mut(&node_id) {
+
+        // Remove from node_labels map
+        let count = if let Some(label_set) = node_labels.get_mut(&node_id) {
             if !label_set.remove(&label_id) {
                 return false; // Node doesn't have this label
             }
+            label_set.len()
         } else {
             return false;
-        }
-        drop(node_labels);
+        };
 
         // Remove from label_index
-        let mut index = self.label_index.write();
         if (label_id as usize) < index.len() {
             index[label_id as usize].remove(&node_id);
         }
-        // Release the index before taking `nodes` (see add_label).
-        drop(index);
 
         // Update label count in node record
-        if let Some(chain) = self.nodes.write().get_mut(&node_id)
-            && let Some(record) = chain.latest_mut()
-        {
-            let count = self.node_labels.read().get(&node_id).map_or(0, |s| s.len());
+        if let Some(record) = chain.latest_mut() {
             record.set_label_count(count as u16);
         }
 
